@@ -155,8 +155,8 @@ fn main() {
 
             // ---- generated programs of macro call sites (engine E5)
             s.require("renamed-reorders-sort", 8);
-            s.require("site-keys:9-16", 3);
-            s.require("site-keys>=17-with-reordering-rename", 2);
+            s.require("site-keys:9-16", 5);
+            s.require("site-keys>=17-with-reordering-rename", 3);
             let runner = c02::prog::Runner::new();
             let args: Vec<String> = std::env::args().collect();
             let selected = match args.iter().position(|a| a == "--only") {
